@@ -259,6 +259,206 @@ fn lane_c10(shard: u64, nshards: u64, seed: u64, cases: u64) -> u64 {
     n
 }
 
+/// One lane for the properties without a lane of their own (C03, C08, C09, C11, C12, C13, C14): valid
+/// and edge-valued inputs from the same encoders through the decoders, every accessor family, the
+/// Debug renderings, the summariser and the model's grouping / merging.  The interpreter is the
+/// oracle here (undefined behaviour, invalid enum values, uninitialised reads, out-of-bounds
+/// accesses in code a change may have made `unsafe`); a handful of values are compared as well.
+fn lane_rest(shard: u64, nshards: u64, seed: u64, cases: u64) -> u64 {
+    use nexrad_decode::messages::clutter_filter_map::decode_clutter_filter_map;
+    use nexrad_decode::messages::rda_status_data::decode_rda_status_message;
+    use nexrad_decode::messages::volume_coverage_pattern::decode_volume_coverage_pattern;
+    use nexrad_model::data::{Radial, RadialStatus, Sweep};
+    let mut n = 0;
+    for i in (shard..cases).step_by(nshards as usize) {
+        let mut rng = Rng::derive(seed, 33, 9_000_000 + i);
+        let r = catch_unwind(AssertUnwindSafe(|| {
+            match i % 6 {
+                0 => {
+                    // C11: a VCP with 0..6 cuts whose angle / rate / threshold halfwords sit at the edges
+                    let ncuts = (i / 6 % 7) as usize;
+                    let mut v = enc::gen_vcp(&mut rng, ncuts);
+                    let edges = [0u16, 1, 7, 8, 0x7FF8, 0x8000, 0xFFF7, 0xFFF8, 0xFFFF];
+                    for (k, c) in v.cuts.iter_mut().enumerate() {
+                        let e = edges[(i as usize / 6 + k) % edges.len()];
+                        c.angle = e; c.edge1 = e.rotate_left(1); c.ebc = e.rotate_left(2);
+                        c.az_rate = e.rotate_left(3);
+                        c.waveform = (i as usize / 6 + k) as u8;
+                        c.channel = (k as u8).wrapping_mul(37);
+                    }
+                    let body = v.encode();
+                    match decode_volume_coverage_pattern(&mut Cursor::new(&body[..])) {
+                        Err(e) => fail("rest", format!("case {}: VCP refused: {:?}", i, e)),
+                        Ok(m) => {
+                            if m.elevations.len() != ncuts {
+                                fail("rest", format!("case {}: {} cuts encoded, {} decoded", i, ncuts, m.elevations.len()));
+                            }
+                            for c in &m.elevations {
+                                let _ = (c.elevation_angle_degrees(), c.azimuth_rate_degrees_per_second(), c.sector_1_edge_angle_degrees(), c.sector_2_edge_angle_degrees(), c.sector_3_edge_angle_degrees(), c.ebc_angle_degrees());
+                                let _ = (c.reflectivity_threshold(), c.velocity_threshold(), c.spectrum_width_threshold(), c.differential_reflectivity_threshold(), c.differential_phase_threshold(), c.correlation_coefficient_threshold());
+                                let _ = format!("{:?} {:?} {:?}", c.channel_configuration(), c.waveform_type(), c);
+                                let _ = (c.super_resolution_control_half_degree_azimuth(), c.supplemental_data_sails_cut(), c.supplemental_data_sails_sequence_number());
+                            }
+                            let _ = format!("{:?} {:?} {:?}", m.header.pattern_type(), m.header.pulse_width(), m.header);
+                            let _ = m.header.doppler_velocity_resolution_meters_per_second();
+                        }
+                    }
+                }
+                1 => {
+                    // C12: a status message, in-domain or arbitrary, alarm codes at and beyond the table's end
+                    let mut h = enc::gen_rda_status_in_domain(&mut rng);
+                    if i % 12 == 1 {
+                        for w in h.iter_mut() {
+                            *w = rng.u16();
+                        }
+                    }
+                    for (k, code) in [0u16, 1, 800, 801, 65_535, 14].iter().enumerate() {
+                        if (i / 6 + k as u64) % 3 == 0 {
+                            h[26 + k] = *code;
+                        }
+                    }
+                    let b = enc::encode_halfwords(&h);
+                    match decode_rda_status_message(&mut Cursor::new(&b[..])) {
+                        Err(e) => fail("rest", format!("case {}: status message refused: {:?}", i, e)),
+                        Ok(m) => {
+                            let codes: Vec<u16> = m.alarm_messages().iter().map(|a| a.code()).collect();
+                            let want: Vec<u16> = h[26..40].iter().copied().filter(|c| *c != 0 && *c <= 800).collect();
+                            if codes != want {
+                                fail("rest", format!("case {}: alarm codes {:?} give {:?}", i, &h[26..40], codes));
+                            }
+                            if i % 12 != 1 {
+                                let _ = format!("{:?}", m);
+                            }
+                            let _ = (m.rda_build_number(), m.rda_scan_and_data_flags(), m.data_transmission_enabled(), m.rda_alarm_summary(), m.volume_coverage_pattern());
+                            let _ = (m.bypass_map_generation_date_time(), m.clutter_filter_map_generation_date_time());
+                        }
+                    }
+                }
+                2 => {
+                    // C13: one or two segments, zone counts 0..3 and, on one azimuth, 20..26
+                    let nseg = 1 + (i / 6 % 2) as usize;
+                    let big = 20 + (i / 12 % 7) as usize;
+                    let segments: Vec<Vec<Vec<(u16, u16)>>> = (0..nseg)
+                        .map(|s| (0..360).map(|az| (0..if s == 0 && az == (i % 360) as usize { big } else { rng.usize_below(4) }).map(|_| (rng.below(3) as u16, rng.range(0, 511) as u16)).collect()).collect())
+                        .collect();
+                    let map = enc::ClutterMap { date: 19_000 + (i % 100) as u16, minutes: (i % 1440) as u16, segments };
+                    let b = map.encode();
+                    match decode_clutter_filter_map(&mut Cursor::new(&b[..])) {
+                        Err(e) => fail("rest", format!("case {}: clutter map refused: {:?}", i, e)),
+                        Ok(m) => {
+                            let zones: usize = m.elevation_segments.iter().flat_map(|s| s.azimuth_segments.iter()).map(|a| a.range_zones.len()).sum();
+                            let want: usize = map.segments.iter().flatten().map(|a| a.len()).sum();
+                            if zones != want || m.elevation_segments.len() != nseg {
+                                fail("rest", format!("case {}: {} zones encoded, {} decoded", i, want, zones));
+                            }
+                            let _ = m.header.date_time();
+                            let _ = format!("{:?}", m.elevation_segments[0].azimuth_segments[(i % 360) as usize]);
+                        }
+                    }
+                    let cut = rng.usize_below(b.len());
+                    let _ = decode_clutter_filter_map(&mut Cursor::new(&b[..cut]));
+                }
+                3 => {
+                    // C03 / C14 / C08: a short stream (radials with few gates, fixed frames of any type
+                    // code, dates and times at the ends of their ranges) decoded and summarised
+                    let mut stream = Vec::new();
+                    let k = 1 + (i / 6 % 4) as usize;
+                    for j in 0..k {
+                        if (i / 6 + j as u64) % 3 == 0 {
+                            let code = [2u8, 5, 15, 18, 0, 34, 255, 3][(i as usize / 6 + j) % 8];
+                            let mut h = enc::MsgHeader::realistic(&mut rng, code);
+                            h.date = [1u16, 2, 65_535, 19_000][(i as usize + j) % 4];
+                            h.time = [0u32, 1, 86_399_999, 43_200_000][(i as usize / 2 + j) % 4];
+                            let body: Vec<u8> = match code {
+                                2 => enc::encode_halfwords(&enc::gen_rda_status_in_domain(&mut rng)),
+                                5 => enc::gen_vcp(&mut rng, j).encode(),
+                                _ => rng.bytes(64),
+                            };
+                            stream.extend_from_slice(&enc::frame(&h, &body, 0));
+                        } else {
+                            let subset = rng.below(1024) as u16;
+                            let mut spec = enc::gen_msg31(&mut rng, subset, false, false);
+                            for b in spec.blocks.iter_mut() {
+                                if let enc::Block::Mom(m) = b {
+                                    m.gates %= 6;
+                                    m.data.truncate(m.gates as usize * (m.word as usize / 8));
+                                }
+                            }
+                            spec.hdr.date = [1u16, 65_535, 19_000][(i as usize + j) % 3];
+                            spec.hdr.status = (i as usize / 6 + j) as u8 % 6;
+                            let body = spec.encode(&mut rng);
+                            let h = enc::MsgHeader::realistic(&mut rng, 31);
+                            stream.extend_from_slice(&enc::msg31_bytes(&h, &body));
+                        }
+                    }
+                    match decode_messages(&mut Cursor::new(&stream[..])) {
+                        Err(e) => fail("rest", format!("case {}: stream of {} messages refused: {:?}", i, k, e)),
+                        Ok(v) => {
+                            if v.len() != k {
+                                fail("rest", format!("case {}: {} messages in, {} out", i, k, v.len()));
+                            }
+                            for m in &v {
+                                let _ = (m.header().date_time(), m.header().message_type(), m.header().message_size_bytes());
+                            }
+                            let s = nexrad_decode::summarize::messages(&v);
+                            let _ = format!("{:?}", s);
+                            for m in v {
+                                if let nexrad_decode::messages::MessageContents::DigitalRadarData(r) = m.into_contents() {
+                                    let _ = r.header.date_time();
+                                    let _ = format!("{:?}", r.header);
+                                    if let Ok(rad) = r.radial() {
+                                        for mo in [rad.reflectivity(), rad.velocity(), rad.spectrum_width()].into_iter().flatten() {
+                                            let _ = mo.values();
+                                        }
+                                    }
+                                    let _ = r.into_radial();
+                                }
+                            }
+                        }
+                    }
+                    let cut = rng.usize_below(stream.len());
+                    let _ = decode_messages(&mut Cursor::new(&stream[..cut]));
+                }
+                _ => {
+                    // C09: grouping and merging of short lists (runs of one, ties, equal radials)
+                    let mk = |id: i64, az: u16, e: u8| Radial::new(id, az, az as f32 * 0.5, 0.5, RadialStatus::IntermediateRadialData, e, e as f32 * 0.1, None, None, None, None, None, None, None);
+                    let len = (i / 6 % 9) as usize;
+                    let elevs: Vec<u8> = (0..len).map(|_| 1 + rng.below(3) as u8).collect();
+                    let radials: Vec<Radial> = elevs.iter().enumerate().map(|(k, e)| mk(1000 + k as i64, rng.below(4) as u16, *e)).collect();
+                    let sweeps = Sweep::from_radials(radials.clone());
+                    let total: usize = sweeps.iter().map(|s| s.radials().len()).sum();
+                    let mut runs = 0;
+                    for k in 0..len {
+                        if k == 0 || elevs[k] != elevs[k - 1] {
+                            runs += 1;
+                        }
+                    }
+                    if total != len || sweeps.len() != runs {
+                        fail("rest", format!("case {}: elevations {:?}: {} sweeps with {} radials", i, elevs, sweeps.len(), total));
+                    }
+                    let a = Sweep::new(3, (0..len).map(|k| mk(k as i64, rng.below(3) as u16, 3)).collect());
+                    let b = Sweep::new(3, (0..(i / 54 % 5) as usize).map(|k| mk(100 + k as i64, rng.below(3) as u16, 3)).collect());
+                    let want = a.radials().len() + b.radials().len();
+                    match a.merge(b) {
+                        Ok(m) => {
+                            let az: Vec<u16> = m.radials().iter().map(|r| r.azimuth_number()).collect();
+                            if az.len() != want || az.windows(2).any(|w| w[0] > w[1]) {
+                                fail("rest", format!("case {}: merged azimuth numbers {:?}", i, az));
+                            }
+                        }
+                        Err(_) => fail("rest", format!("case {}: merge of equal elevations refused", i)),
+                    }
+                }
+            }
+        }));
+        if r.is_err() {
+            fail("rest", format!("case {}: panic (kind {})", i, i % 6));
+        }
+        n += 1;
+    }
+    n
+}
+
 fn main() {
     let a: Vec<String> = std::env::args().collect();
     if a.len() < 6 {
@@ -276,6 +476,7 @@ fn main() {
         "c04" => lane_c04(shard, nshards, seed, cases),
         "c07" => lane_c07(shard, nshards, seed, cases),
         "c10" => lane_c10(shard, nshards, seed, cases),
+        "rest" => lane_rest(shard, nshards, seed, cases),
         _ => {
             eprintln!("unknown lane");
             std::process::exit(2);
